@@ -1,6 +1,6 @@
 (* Property C05 — theorems only. Each is closed by [exact] and followed by Print Assumptions. *)
 From Coq Require Import List NArith Bool Arith.
-From RopeVerif.C05 Require Import Layout LayoutProofs Move Domain MoveProofs RootProofs RenameProofs ToPackageProofs Refute RefuteProofs.
+From RopeVerif.C05 Require Import Layout LayoutProofs Move Domain MoveProofs RootProofs RenameProofs ToPackageProofs SimProofs BystanderProofs Refute RefuteProofs.
 Import ListNotations.
 
 (* libutils.modname is inverted by Project.find_module: for every layout (any depth, any number of source
@@ -93,6 +93,81 @@ Example C05_example_repaired :
      = Done (mk [a_; p_] [IFrom 0 [c_] [(b_, None)]] [[b_; f_]]).
 Proof. exact repaired_examples. Qed.
 Print Assumptions C05_example_repaired.
+
+(* ---- headline statements for the code as it is now (both repairs in: Refute.repaired) *)
+Theorem C05_move_module_refs_repaired :
+  forall (w : world) (p : path) (b : N) (dest : path) (m : pymod),
+    move_domain repaired w (RPy p b) dest m = true ->
+    exists m', move_module_text repaired w (RPy p b) dest m = Done m'
+               /\ m_folder m' = m_folder m /\ m_name m' = m_name m
+               /\ refs_preserved w p b dest m m'.
+Proof. exact (move_module_domain repaired). Qed.
+Print Assumptions C05_move_module_refs_repaired.
+
+Theorem C05_move_to_root_refs_repaired :
+  forall (w : world) (p : path) (b : N) (m : pymod),
+    root_domain repaired w (RPy p b) m = true ->
+    exists m', move_module_text repaired w (RPy p b) [] m = Done m'
+               /\ m_folder m' = m_folder m /\ m_name m' = m_name m /\ m_refs m' = m_refs m
+               /\ forall r o, In r (m_refs m) -> resolve_ref w m r = Some o ->
+                    resolve_ref (move_world (RPy p b) [] w) m' r = Some (move_obj (move_res (RPy p b) []) o).
+Proof. exact (move_to_root_domain repaired). Qed.
+Print Assumptions C05_move_to_root_refs_repaired.
+
+(* By-standers, with ANY number of import statements and references: a module in which rope finds no occurrence of
+   the moving module file and whose references mean the same with that file taken out of the project is left
+   unchanged by MoveModule (any destination, the project root included; any variant of the code) and every one of
+   its references keeps its meaning in the moved tree. *)
+Theorem C05_bystander_refs :
+  forall (V : variant) (w : world) (p : path) (b : N) (dest : path) (m : pymod),
+    bystander_domain w (RPy p b) dest m = true ->
+    move_module_text V w (RPy p b) dest m = Done m
+    /\ forall r o, In r (m_refs m) -> resolve_ref w m r = Some o ->
+         resolve_ref (move_world (RPy p b) dest w) m r = Some (move_obj (move_res (RPy p b) dest) o).
+Proof. exact bystander_domain_thm. Qed.
+Print Assumptions C05_bystander_refs.
+
+Example C05_example_bystander :
+  bystander_domain w3k (RPy [a_; p_] b_) [c_] m_by = true
+  /\ bystander_domain w3k (RPy [a_; p_] b_) [] m_by = true
+  /\ resolve_ref w3k m_by [x_; r_] = Some (OGlob (RPy [a_] q_) r_)
+  /\ length (m_imports m_by) = 2.
+Proof. exact example_bystander. Qed.
+Print Assumptions C05_example_bystander.
+
+(* C05_all_import: inside the theorems' domains no stale import statement remains — a module whose import
+   statements all succeeded before still has only succeeding import statements after MoveModule (either
+   destination kind) and after Rename, in the moved/renamed tree.  (Any variant of the code; for ModuleToPackage it
+   is part of C05_to_package_refs' simulation and for every other module.) *)
+Theorem C05_all_import_move :
+  forall (V : variant) (w : world) (p : path) (b : N) (dest : path) (m m' : pymod),
+    move_domain V w (RPy p b) dest m = true ->
+    move_module_text V w (RPy p b) dest m = Done m' ->
+    imports_ok w m = true -> imports_ok (move_world (RPy p b) dest w) m' = true.
+Proof. exact move_module_all_import_domain. Qed.
+Print Assumptions C05_all_import_move.
+
+Theorem C05_all_import_move_to_root :
+  forall (V : variant) (w : world) (p : path) (b : N) (m m' : pymod),
+    root_domain V w (RPy p b) m = true ->
+    move_module_text V w (RPy p b) [] m = Done m' ->
+    imports_ok (move_world (RPy p b) [] w) m' = true.
+Proof. exact move_to_root_all_import_domain. Qed.
+Print Assumptions C05_all_import_move_to_root.
+
+Theorem C05_all_import_rename :
+  forall (w : world) (p : path) (b nb : N) (m : pymod),
+    rename_domain w (RPy p b) nb m = true ->
+    imports_ok w m = true ->
+    imports_ok (map_world (rename_res (RPy p b) nb) w) (rename_module_text w (RPy p b) nb m) = true.
+Proof. exact rename_module_all_import_domain. Qed.
+Print Assumptions C05_all_import_rename.
+
+Example C05_example_all_import :
+  imports_ok w3 m_ex_import = true /\ imports_ok w3 m_ex_rel = true /\ imports_ok w3 m_ex_from = true
+  /\ move_domain repaired w3 (RPy [a_; p_] b_) [c_] m_ex_rel = true.
+Proof. exact example_all_import. Qed.
+Print Assumptions C05_example_all_import.
 
 (* Rename of a module file p/b.py to p/nb.py (rename_legal: the new name is free, ...): for the same client
    styles, the model of rename_in_module (every occurrence of the word b that evaluates to the module, in import
